@@ -141,6 +141,10 @@ func genC01(g engine.G) *engine.Case {
 	}
 	sc.JoinTyped = g.Pct(10)
 	sc.RawConverters = g.Pct(15)
+	if t := &sc.Target; g.Pct(10) && !t.HasErr && !t.Built && !t.Identity && t.OutForm == engine.FormPos {
+		// a final result of a concrete error type: an ordinary output
+		t.ConcreteErr = true
+	}
 	c := &engine.Case{Sc: sc, Reps: 2}
 	if g.Pct(20) {
 		c.Note = engine.Pick(g, []string{"wrap", "fromsig"})
